@@ -26,7 +26,9 @@ EXPLANATION = (
     "is not an error: on the create routes the existence look-ups are called with arguments of the declared kind, "
     "Folder.add_file (which raises on a duplicate name) is reached only on the 'did not exist' or 'force' edge, and no "
     "second item with the same name is inserted; R15.5 every non-ClassVar option of a file/folder action schema is read "
-    "by its form_request, and the parameter the create handler reads as `force` is the action's `force`. NOT decided: "
+    "by its form_request, and the parameter the create handler reads as `force` is the action's `force`; R15.6 a forced "
+    "Folder.add_file (which skips the duplicate-name test) receives either the object the look-up by name returned or a "
+    "File constructed on the look-up's empty edge (listed exception: copy_file, callable only from restore_backup). NOT decided: "
     "bounded-exhaustive sequence conformance against a reference model."
 )
 TECHNIQUE = "static: abstract interpreter over (in live, in deleted, flag) on every path of the partition-changing methods, CFG must-pass on create routes, option def-use"
@@ -446,9 +448,79 @@ def r15_5(ctx: Ctx) -> None:
                f"the handler reads request[{idx}] as `force`; the action sends `{src}` there")
 
 
+# forced insertions whose name-uniqueness rests on the caller: reason + the functions that may call them
+FORCED_INSERT_CALLERS = {
+    "FileSystem.copy_file": ("inserts a fresh copy with force=True; its only caller DatabaseService.restore_backup deletes "
+                             "the live file of that name first (C14 R14.2)", {"DatabaseService.restore_backup"}),
+}
+
+
+def r15_6(ctx: Ctx) -> None:
+    """Folder.add_file(force=True) skips the duplicate-name test, so with force the caller is responsible: a *new* File
+    object may be handed over only on a path on which the look-up by that name came back empty (re-adding the object the
+    look-up returned is idempotent: same uuid)."""
+    ix = ctx.ix
+    ctx.rule("R15.6", "a forced add_file never puts a second object under a live name: a freshly constructed File is inserted "
+                      "with force only where the look-up by name found nothing (or the caller is a listed exception)")
+    n = 0
+    for fn in ix.functions:
+        if isinstance(fn.node, ast.Lambda) or not fn.path.startswith("src/primaite/simulator/"):
+            continue
+        for c in calls_in(fn.node):
+            if call_name(c) != "add_file" or not isinstance(c.func, ast.Attribute):
+                continue
+            fv = kwarg(c, "force", 1)
+            if fv is None or (isinstance(fv, ast.Constant) and fv.value is False):
+                continue
+            n += 1
+            key = ctx.key(fn, f"forced {unparse(c)[:50]}")
+            if fn.short in FORCED_INSERT_CALLERS:
+                reason, allowed = FORCED_INSERT_CALLERS[fn.short]
+                callers = {cs.owner for cs in call_sites(ix, [fn.name]) if cs.owner != fn.short and not cs.path.startswith("src/primaite/setup/")}
+                ok = callers <= allowed
+                ctx.record("R15.6", key, fn.loc(c), ok, reason if ok else
+                           f"{fn.short} inserts with force without a name check and is now also called from {sorted(callers - allowed)}")
+                continue
+            g = CFG(fn.node)
+            ld = LocalDefs(fn.node)
+            obj = c.args[0] if c.args else kwarg(c, "file")
+            if not isinstance(obj, ast.Name):
+                raise AnalysisError(f"R15.6: cannot follow the object handed to {unparse(c)[:50]} in {fn.short}")
+            vals = ld.all_values(obj.id)
+            lookups = {obj.id} if any(isinstance(v, ast.Call) and call_name(v) in ("get_file", "get_file_by_id") for v, _ in vals if v is not None) else set()
+            ctors = [nd for nd in g.nodes if nd.kind == "stmt" and isinstance(nd.ast, (ast.Assign, ast.AnnAssign))
+                     and isinstance(getattr(nd.ast, "value", None), ast.Call) and call_name(nd.ast.value) == "File"
+                     and any(isinstance(t, ast.Name) and t.id == obj.id for t in (nd.ast.targets if isinstance(nd.ast, ast.Assign) else [nd.ast.target]))]
+            others = [v for v, _ in vals if v is not None and not (isinstance(v, ast.Call) and call_name(v) in ("get_file", "get_file_by_id", "File"))]
+            if others or not lookups:
+                raise AnalysisError(f"R15.6: {fn.short} hands add_file(force=...) an object of unrecognised origin ({[unparse(v)[:40] for v in others]})")
+
+            def empty_edge(e) -> bool:
+                if not (e.label and e.label[0] == "cond"):
+                    return False
+                x, pol = e.label[1], e.label[2]
+                if isinstance(x, ast.Name) and x.id in lookups:
+                    return pol is False
+                if isinstance(x, ast.UnaryOp) and isinstance(x.op, ast.Not) and isinstance(x.operand, ast.Name) and x.operand.id in lookups:
+                    return pol is True
+                if isinstance(x, ast.Compare) and len(x.ops) == 1 and isinstance(x.left, ast.Name) and x.left.id in lookups \
+                        and isinstance(x.comparators[0], ast.Constant) and x.comparators[0].value is None:
+                    return pol == isinstance(x.ops[0], (ast.Is, ast.Eq))
+                return False
+
+            p = g.path_avoiding(ctors, empty_edge) if ctors else None
+            ctx.record("R15.6", key, fn.loc(c), p is None,
+                       f"`{obj.id}` is either what the look-up by name returned or a File constructed on its empty edge" if p is None else
+                       f"a new File can be constructed while the look-up found a live file of that name and is then inserted with "
+                       f"force: two live files share the name", path_text(p))
+    ctx.floor("R15.6", "forced insertions", n, 2)
+
+
+
 def check(ctx: Ctx) -> None:
     r15_1(ctx)
     r15_2(ctx)
     r15_3(ctx)
     r15_4(ctx)
     r15_5(ctx)
+    r15_6(ctx)
